@@ -77,7 +77,7 @@ def heldWitness : PageIn :=
       else if i = 43 then 0x01 else if i = 44 then 0x92 else if i = 45 then 0x13 else 0x20 }
 
 /-- The full statement is FALSE on the unchanged tree (genuine deviation, replayed on the C code by
-corpus/C02/held-mosaic-reset.ops; KNOWN-FINDING C02-held-mosaic-reset). -/
+corpus/C02/held-mosaic-reset.ops; KNOWN-FINDING F37). -/
 theorem format_refines_L1Spec_counterexample : ¬ format_refines_L1Spec_full := by
   intro h
   have := h heldWitness 1 5 (by decide) (by decide)
@@ -248,7 +248,8 @@ magazines, serial mode, updates and subpages).  `page_roundtrip`, single-magazin
 feed a fresh decoder a well-formed stream `txs ++ [last]` and one more header of another page; then the cache
 holds `last` under its page/subpage number with every transmitted row exactly as sent - so by
 `fetch_refines_L1Spec` a fetch shows L1Spec of the sent characters.  (In serial mode the corresponding
-statement is FALSE on the unchanged tree: KNOWN-FINDING C02-serial-erase-lost.) -/
+statement was false before commit 53b7b09, finding F38: a page with the erase flag followed by another
+magazine's header could be lost.) -/
 def page_roundtrip_full : Prop :=
   ∀ (mag : Nat) (text : Tx → List Nat) (txs : List Tx) (last fin : Tx),
     WellFormed mag text (txs ++ [last, fin]) →
